@@ -259,6 +259,13 @@ theorem step_ec (s : PState) (op : Op) (hb : EB s) (h : EC s) : EC (step s op) :
     cases hk : o.kind <;> cases hr : o.ref <;> cases hk2 : o2.kind <;> cases hr2 : o2.ref <;> simp only [] <;> try exact h
     rename_i p p2; obtain ⟨c, id⟩ := p; obtain ⟨c2, id2⟩ := p2
     exact ec_emit _ h _ (by intro r t; rfl)
+  | followsGuard k k2 =>
+    simp only [step]
+    cases hf : find k s.owners <;> cases hf2 : find k2 s.owners <;> simp only [] <;> try exact h
+    rename_i o o2
+    cases hk : o.kind <;> cases hr : o.ref <;> cases hk2 : o2.kind <;> cases hr2 : o2.ref <;> simp only [] <;> try exact h
+    rename_i p t2 p2; obtain ⟨c, id⟩ := p; obtain ⟨c2, id2⟩ := p2
+    exact ec_emit _ h _ (by intro r t; rfl)
   | current t k =>
     simp only [step]
     exact ec_currentRef s h t
@@ -608,6 +615,18 @@ theorem step_sok (s : PState) (op : Op) (hrc : RC s) (hb : EB s) (hc : EC s) (h 
     rename_i o o2
     cases hk : o.kind <;> cases hr : o.ref <;> cases hk2 : o2.kind <;> cases hr2 : o2.ref <;> simp only [] <;> try exact h
     rename_i p p2; obtain ⟨c, id⟩ := p; obtain ⟨c2, id2⟩ := p2
+    apply sok_emit s h
+    right
+    have := own_pos_of_mem (c, id) s.owners o (mem_of_find k _ o hf) hr
+    have := hrc (c, id)
+    show 1 ≤ bal (c, id) s.log
+    omega
+  | followsGuard k k2 =>
+    simp only [step]
+    cases hf : find k s.owners <;> cases hf2 : find k2 s.owners <;> simp only [] <;> try exact h
+    rename_i o o2
+    cases hk : o.kind <;> cases hr : o.ref <;> cases hk2 : o2.kind <;> cases hr2 : o2.ref <;> simp only [] <;> try exact h
+    rename_i p t2 p2; obtain ⟨c, id⟩ := p; obtain ⟨c2, id2⟩ := p2
     apply sok_emit s h
     right
     have := own_pos_of_mem (c, id) s.owners o (mem_of_find k _ o hf) hr
